@@ -80,7 +80,7 @@ package daemon
 //@ # the node agent reports a teardown it did not process itself only for a pod it verified to be gone
 //@ guard mapupdate CNIStatus in cleanRuntimeNode: key != "deleted" || c03absent
 
-//@ for C04
+//@ for C04 C09
 
 //@ # ---- one request per pod at a time: a request that finds the pod's in-flight marker set has no effect ----
 //@ ghost c04busy bool = false
@@ -90,10 +90,15 @@ package daemon
 //@ ghost c04taken bool = false
 //@ ghost c04allocfailed bool = false
 //@ ghost c04released bool = false
+//@ # the service lock: held shared by request handlers, exclusively by the pod GC
+//@ ghost c09r bool = false
+//@ ghost c09w bool = false
 
 //@ func networkService.AllocIP
 //@   requires n != nil && r != nil && n.k8s != nil && n.eniMgr != nil && n.resourceDB != nil
 //@   at call Map.LoadOrStore: ghost c04busy = result1
+//@   at call RWMutex.RLock: ghost c09r = true
+//@   at call RWMutex.RUnlock: ghost c09r = false
 //@   at call Manager.Allocate: ghost c04taken = true
 //@   at call Manager.Allocate: ghost c04allocfailed = (result1 != nil)
 //@   at call Manager.Release: ghost c04released = true
@@ -102,10 +107,26 @@ package daemon
 //@   at call Put: ghost c04putcid = newRes.ContainerID
 //@   # a rejected request answers with the retryable 'processing' error
 //@   ensures c04busy ==> result0 == nil && result1 != nil
-//@   # an acknowledged ADD has written the pod's record, keyed by the pod, carrying this request's sandbox id
+//@   # an acknowledged ADD has written the pod's record, carrying this request's sandbox id
 //@   ensures result1 == nil ==> c04put && c04putcid == &r.K8SPodInfraContainerId
 //@   # an ADD whose allocation fails hands back what it took
 //@   ensures c04allocfailed ==> c04released && result1 != nil
+
+//@ func networkService.ReleaseIP
+//@   requires n != nil && r != nil && n.k8s != nil && n.eniMgr != nil && n.resourceDB != nil
+//@   at call Map.LoadOrStore: ghost c04busy = result1
+//@   at call RWMutex.RLock: ghost c09r = true
+//@   at call RWMutex.RUnlock: ghost c09r = false
+//@   ensures c04busy ==> result0 == nil && result1 != nil
+
+//@ func networkService.GetIPInfo
+//@   requires n != nil && r != nil && n.k8s != nil && n.resourceDB != nil
+//@   at call Map.LoadOrStore: ghost c04busy = result1
+//@   at call RWMutex.RLock: ghost c09r = true
+//@   at call RWMutex.RUnlock: ghost c09r = false
+//@   ensures c04busy ==> result0 == nil && result1 != nil
+
+//@ for C04
 
 //@ # a rejected request touches nothing: not the pool, not the store, not the marker of the request in flight
 //@ guard call Map.Delete in AllocIP: !c04busy
@@ -117,19 +138,41 @@ package daemon
 //@ guard call deletePodResource in ReleaseIP: !c04busy
 //@ guard call Map.Delete in GetIPInfo: !c04busy
 
-//@ func networkService.ReleaseIP
-//@   requires n != nil && r != nil && n.k8s != nil && n.eniMgr != nil && n.resourceDB != nil
-//@   at call Map.LoadOrStore: ghost c04busy = result1
-//@   ensures c04busy ==> result0 == nil && result1 != nil
-
 //@ # a DEL carrying another sandbox id than the recorded one releases nothing and keeps the record
 //@ guard call Manager.Release in ReleaseIP: oldRes.ContainerID == nil || r.K8SPodInfraContainerId == *oldRes.ContainerID
 //@ guard call deletePodResource in ReleaseIP: oldRes.ContainerID == nil || r.K8SPodInfraContainerId == *oldRes.ContainerID
 
-//@ func networkService.GetIPInfo
-//@   requires n != nil && r != nil && n.k8s != nil && n.resourceDB != nil
-//@   at call Map.LoadOrStore: ghost c04busy = result1
-//@   ensures c04busy ==> result0 == nil && result1 != nil
-
 //@ # a status query carrying another sandbox id than the recorded one returns no allocation
 //@ guard store GetInfoReply.NetConfs in GetIPInfo: len(value) == 0 || oldRes.ContainerID == nil || r.K8SPodInfraContainerId == *oldRes.ContainerID
+
+//@ for C09
+
+//@ # ---- pod GC: collects exactly the pods whose absence the API server confirmed, under the exclusive service lock ----
+//@ ghost c09absent bool = false
+//@ ghost c09relerr bool = false
+
+//@ func networkService.gcPods
+//@   requires n != nil && n.k8s != nil && n.eniMgr != nil && n.resourceDB != nil
+//@   at call RWMutex.Lock: ghost c09w = true
+//@   at call RWMutex.Unlock: ghost c09w = false
+//@   at call Kubernetes.PodExist: ghost c09absent = (!result0 && result1 == nil)
+//@   at call Kubernetes.PodExist: ghost c09relerr = false
+//@   at call Manager.Release: ghost c09relerr = (c09relerr || result != nil)
+//@   loop 3 invariant !c09relerr
+
+//@ # a pod is collected only if it is not in the node's pod list and the API server answered, without error, that it does not exist
+//@ guard call Manager.Release in gcPods: c09absent && !(podID in exist)
+//@ guard call deletePodResource in gcPods: c09absent && !(podID in exist)
+//@ # the record goes only after every address of the pod was released (a failed release keeps the record for the next pass)
+//@ guard call deletePodResource in gcPods: !c09relerr
+//@ # GC changes pool and store only while holding the service lock exclusively ...
+//@ guard call Manager.Release in gcPods: c09w
+//@ guard call deletePodResource in gcPods: c09w
+//@ guard call Put in gcPods: c09w
+//@ # ... and request handlers only while holding it shared, so a pod with a request in flight is never collected
+//@ guard call Manager.Allocate in AllocIP: c09r
+//@ guard call Manager.Release in AllocIP: c09r
+//@ guard call Put in AllocIP: c09r
+//@ guard call Manager.Release in ReleaseIP: c09r
+//@ guard call deletePodResource in ReleaseIP: c09r
+//@ guard call getPodResource in GetIPInfo: c09r
